@@ -126,6 +126,12 @@ class Stream:
     def cmp(self, h1, h2):
         self.add("cmp\t%d\t%d" % (h1, h2))
 
+    def rt(self, h):
+        return self.add("rt\tB\t%d" % h, True)
+
+    def hr(self, h):
+        return self.add("hr\tB\t%d" % h, True)
+
     def pkl(self, h):
         return self.add("pkl\t%d" % h, True)
 
